@@ -553,6 +553,9 @@ pub enum OpC4 {
     Balance { asset: usize, total: i64 },
     OrderReport { inst: usize },
     Trade { inst: usize, buy: bool },
+    /// an order report naming instrument `inst` (exchange X, by name) that arrives on the link of a
+    /// *different* exchange: it must not be applied to anything of that other exchange
+    ForeignOrderReport { inst: usize },
 }
 
 #[derive(Clone, Debug, Serialize, Deserialize)]
@@ -682,7 +685,13 @@ impl Sim for SimC4 {
                     asset: rng.usize(n_assets),
                     total: rng.range(1, 10_000),
                 },
-                4 => OpC4::OrderReport { inst: rng.usize(n_inst) },
+                4 => {
+                    if sub == 1 && rng.chance(1, 3) {
+                        OpC4::ForeignOrderReport { inst: rng.usize(n_inst) }
+                    } else {
+                        OpC4::OrderReport { inst: rng.usize(n_inst) }
+                    }
+                }
                 _ => OpC4::Trade {
                     inst: rng.usize(n_inst),
                     buy: rng.chance(1, 2),
@@ -863,7 +872,11 @@ impl Sim for SimC4 {
             for (k, op) in ops.iter().enumerate() {
                 t_ms += 1;
                 let valid = match op {
-                    OpC4::Open { inst } | OpC4::Cancel { inst } | OpC4::OrderReport { inst } | OpC4::Trade { inst, .. } => *inst < n_inst,
+                    OpC4::Open { inst }
+                    | OpC4::Cancel { inst }
+                    | OpC4::OrderReport { inst }
+                    | OpC4::ForeignOrderReport { inst }
+                    | OpC4::Trade { inst, .. } => *inst < n_inst,
                     OpC4::Balance { asset, .. } => *asset < n_assets,
                 };
                 if !valid {
@@ -874,6 +887,7 @@ impl Sim for SimC4 {
                     OpC4::Cancel { inst } => format!("c{}", instruments.instruments()[*inst].value.exchange.key.0),
                     OpC4::Balance { asset, .. } => format!("b{asset}"),
                     OpC4::OrderReport { inst } => format!("r{inst}"),
+                    OpC4::ForeignOrderReport { inst } => format!("fr{inst}"),
                     OpC4::Trade { inst, .. } => format!("t{inst}"),
                 });
                 let recv_before: Vec<usize> = clients.iter().map(|c| c.0.received.lock().unwrap().len()).collect();
@@ -1002,6 +1016,57 @@ impl Sim for SimC4 {
                                 }
                             } else if b != af {
                                 return (Some(("X7_event_applied_to_wrong_item".to_string(), k, format!("balance event for asset index {asset} = ({}, {}) changed asset index {x}", a.value.exchange, a.value.asset.name_exchange))), lines, sigs, probes, 0);
+                            }
+                        }
+                    }
+                    OpC4::ForeignOrderReport { inst } => {
+                        let ii = &instruments.instruments()[*inst];
+                        let x = ii.value.exchange.key.0;
+                        // another traded exchange, preferably one that lists the same instrument name
+                        let others: Vec<usize> = (0..n_ex).filter(|e| *e != x && traded[*e]).collect();
+                        let Some(y) = others
+                            .iter()
+                            .copied()
+                            .find(|e| instruments.instruments().iter().any(|j| j.value.exchange.key.0 == *e && j.value.name_exchange == ii.value.name_exchange))
+                            .or(others.first().copied())
+                        else {
+                            continue;
+                        };
+                        let _ = acct_txs[y].send(UnindexedAccountEvent {
+                            // the envelope is the link's own exchange; the order key inside names X
+                            exchange: instruments.exchanges()[y].value,
+                            kind: AccountEventKind::OrderSnapshot(Snapshot(Order {
+                                key: OrderKey {
+                                    exchange: ii.value.exchange.value,
+                                    instrument: ii.value.name_exchange.clone(),
+                                    strategy: strategy_id(),
+                                    cid: ClientOrderId::new(cid.as_str()),
+                                },
+                                side: Side::Buy,
+                                price: dec(100),
+                                quantity: dec(1),
+                                kind: OrderKind::Limit,
+                                time_in_force: TimeInForce::GoodUntilCancelled { post_only: false },
+                                state: OrderState::active(Open {
+                                    id: OrderId::new(format!("x-{cid}")),
+                                    time_exchange: ts(t_ms),
+                                    filled_quantity: dec(0),
+                                }),
+                            })),
+                        });
+                        tokio::time::sleep(Duration::from_millis(1)).await;
+                        while let Ok(ev) = merged_rx.rx.try_recv() {
+                            let _ = engine.process(EngineEvent::<DataKind>::Account(ev));
+                        }
+                        probes.push("report_naming_foreign_exchange");
+                        for j in 0..n_inst {
+                            if instruments.instruments()[j].value.exchange.key.0 != y {
+                                continue;
+                            }
+                            let b = before.instruments.instrument_index(&InstrumentIndex(j));
+                            let af = engine.state.instruments.instrument_index(&InstrumentIndex(j));
+                            if b != af {
+                                return (Some(("X7_event_applied_to_wrong_item".to_string(), k, format!("an order report naming ({}, {}) arrived on the link of exchange {y} and changed that exchange's instrument index {j}", ii.value.exchange.value, ii.value.name_exchange))), lines, sigs, probes, 0);
                             }
                         }
                     }
@@ -1172,6 +1237,7 @@ impl Sim for SimC4 {
             "instrument_name_shared_between_exchanges",
             "request_for_untraded_exchange",
             "balance_for_settlement_only_asset",
+            "report_naming_foreign_exchange",
         ]
     }
     fn assumptions(&self) -> Vec<String> {
